@@ -154,10 +154,12 @@ pub fn dispatch(op: &str, a: &[Val]) -> Option<Val> {
         })(),
         "it.dnth" => (|| {
             let d = dec_date(a.get(0)?)?; let n = usize::try_from(a.get(1)?.u64()?).ok()?; let f = dir(a.get(2)?)?; let cap = small(a.get(3)?)?;
+            if n > 3000 { near_end(a.get(0)?, f)?; }
             Some(observe_nth(d.iter_days(), n, f, cap))
         })(),
         "it.wnth" => (|| {
             let d = dec_date(a.get(0)?)?; let n = usize::try_from(a.get(1)?.u64()?).ok()?; let f = dir(a.get(2)?)?; let cap = small(a.get(3)?)?;
+            if n > 3000 { near_end(a.get(0)?, f)?; }
             Some(observe_nth(d.iter_weeks(), n, f, cap))
         })(),
         "it.dhint" => (|| {
